@@ -407,6 +407,22 @@ class SymList(list):
         return list.__getitem__(s, i)
 
 
+_SS = {}
+
+
+def _scalar_slots(np):
+    """object ndarray that, like a real float array under numpy >= 2.4, refuses to store a sequence in one element"""
+    if 'cls' not in _SS:
+        class ScalarSlots(np.ndarray):
+            def __setitem__(self, key, value):
+                single = isinstance(key, tuple) and len(key) == self.ndim and all(isinstance(k, (int, np.integer)) for k in key)
+                if single and (isinstance(value, (list, tuple)) or (isinstance(value, np.ndarray) and value.ndim > 0)):
+                    raise ValueError('setting an array element with a sequence.')
+                np.ndarray.__setitem__(self, key, value)
+        _SS['cls'] = ScalarSlots
+    return _SS['cls']
+
+
 class NPProxy:
     """stands for `np` in a repo module namespace: real numpy, except that freshly allocated zero arrays are object
     arrays so that symbolic scalars can be stored (A5; cross-checked against real numpy on every run)"""
@@ -420,7 +436,7 @@ class NPProxy:
     def zeros(s, shape, dtype=None, **kw):
         a = s._np.empty(shape, dtype=object)
         a.fill(0.0)
-        return a
+        return a.view(_scalar_slots(s._np))
 
     def array(s, obj, *a, **kw):
         return s._np.array(obj, *a, **kw)
